@@ -507,3 +507,91 @@ func RUnits(c *core.Ctx) {
 	cur := p.LookupField("syntax", "parser", "currentPos")
 	c.Check(cur != nil && !taintedFields[cur], "syntax.parser.currentPos / never assigned a byte offset", token.NoPos, "the parser indexes []rune with it")
 }
+
+// ---------------------------------------------------------------------------
+// R-ESCLETTERS: the letters escape() writes after a backslash reach
+// scanCharEscape.  In a pattern (outside a class) a backslash is first looked
+// at by scanBackslash, which claims some letters for anchors and classes
+// (\b \B \A \G \Z \z \w \W \s \S \d \D \p \P), and by scanBasicBackslash
+// (\k, digits, \< \').  A letter from those sets written by Escape would be
+// read back as an assertion or a class, not as the character (\b is a word
+// boundary in a pattern although scanCharEscape decodes it as backspace).
+// ---------------------------------------------------------------------------
+
+func REscLetters(c *core.Ctx) {
+	c.Rule("R-ESCLETTERS", "no escape sequence written by escape() (the character after the backslash in every string constant it writes) is one that the pattern-level scanners claim before scanCharEscape is reached: the case labels of scanBackslash's switch and the characters scanBasicBackslash compares the escape character with", 6)
+	p := c.P
+	syn := p.Pkg("syntax")
+	info := syn.TypesInfo
+	esc, _ := p.DeclOf(p.LookupFunc("syntax", "escape"))
+	sb, _ := p.DeclOf(p.LookupFunc("syntax", "parser.scanBackslash"))
+	sbb, _ := p.DeclOf(p.LookupFunc("syntax", "parser.scanBasicBackslash"))
+	if esc == nil || sb == nil || sbb == nil {
+		c.Anchor("syntax.escape / parser.scanBackslash / parser.scanBasicBackslash")
+		return
+	}
+	c.Visit("syntax.escape")
+	claimed := map[rune]string{}
+	isRune := func(e ast.Expr) (rune, bool) {
+		tv, ok := info.Types[e]
+		if !ok || tv.Value == nil {
+			return 0, false
+		}
+		if _, isLit := ast.Unparen(e).(*ast.BasicLit); !isLit {
+			return 0, false
+		}
+		if ast.Unparen(e).(*ast.BasicLit).Kind != token.CHAR {
+			return 0, false
+		}
+		v, ok := core.ConstInt(info, e)
+		return rune(v), ok
+	}
+	ast.Inspect(sb.Body, func(n ast.Node) bool {
+		if cc, ok := n.(*ast.CaseClause); ok {
+			for _, e := range cc.List {
+				if r, ok := isRune(e); ok {
+					claimed[r] = "scanBackslash case '" + string(r) + "'"
+				}
+			}
+		}
+		return true
+	})
+	ast.Inspect(sbb.Body, func(n ast.Node) bool {
+		if be, ok := n.(*ast.BinaryExpr); ok && (be.Op == token.EQL || be.Op == token.NEQ || be.Op == token.GEQ || be.Op == token.LEQ) {
+			for _, side := range []ast.Expr{be.X, be.Y} {
+				if r, ok := isRune(side); ok && r != '\\' {
+					claimed[r] = "scanBasicBackslash comparison with '" + string(r) + "'"
+				}
+			}
+		}
+		return true
+	})
+	if len(claimed) < 10 {
+		c.Anchor("escape letters claimed by scanBackslash / scanBasicBackslash")
+		return
+	}
+	n := 0
+	ast.Inspect(esc.Body, func(x ast.Node) bool {
+		call, ok := x.(*ast.CallExpr)
+		if !ok || len(call.Args) != 1 {
+			return true
+		}
+		s, ok := stringLit(info, call.Args[0])
+		if !ok || len(s) < 2 || s[0] != '\\' {
+			return true
+		}
+		n++
+		letter := rune(s[1])
+		why, bad := claimed[letter]
+		// digits are claimed as backreferences through a range comparison
+		if letter >= '0' && letter <= '9' {
+			why, bad = "scanBasicBackslash treats digits as a backreference", true
+		}
+		c.Check(!bad, fmt.Sprintf("escape / sequence %q is not claimed by the pattern-level scanners", s), call.Pos(),
+			"in a pattern this sequence never reaches scanCharEscape: %s", why)
+		return true
+	})
+	if n == 0 {
+		c.Anchor("escape sequences written by escape()")
+	}
+}
